@@ -276,13 +276,13 @@ def mk_case(kind, root, pts, order, thetas=None, queries=None, mode="E", rng=Non
             "full": n <= 4 and kind != "ranges"}
 
 
-def gen_cases(rng, budget):
+def gen_cases(rng, budget, sizes=(1, 2, 3, 4, 5, 7, 9, 12, 16, 24, 40)):
     """budget: dict of counts per family"""
     cases = []
     for kind, gen in GENS.items():
         for _ in range(budget[kind]):
             root = rng.choice(ROOTS)
-            n = rng.choice([1, 2, 3, 4, 5, 7, 9, 12, 16, 24, 40])
+            n = rng.choice(sizes)
             pts = gen(rng, root, n)
             order = list(range(len(pts)))
             r = rng.random()
@@ -778,9 +778,12 @@ def check_impl_alone(ctx, c, d, pts, stats, report):
     report(why) records a violation for this case."""
     cells = d["cells"]
     n_ins = len(d["ins"])
-    for cell in cells:
+    for ci, cell in enumerate(cells):
         if not all(math.isfinite(v) for v in cell[1:5] + cell[9:11]):
             return report("non-finite box or centre of mass in the tree")
+        size, idx, cnt, cum = cell[5:9]
+        if not (0 <= size <= 1 and 0 <= cum <= 10 ** 6 and -1 <= cnt <= 10 ** 6 and (size == 0 or 0 <= idx < len(pts))):
+            return report("cell %d holds garbage: size %d index[0] %d count[0] %d cum_size %d" % (ci, size, idx, cnt, cum))
     kids = tree_children(cells)
     if c["kind"].startswith("tol"):
         # everything below is reported under the known finding F25 iff the dump is exactly what the shipped
@@ -1514,7 +1517,8 @@ def run(ctx):
     bud, perm_sizes, ntol = budgets(ctx)
     cases = corpus_cases(ctx)
     ncorpus = len(cases)
-    cases += gen_cases(rng, bud)
+    cases += gen_cases(rng, bud, sizes=(1, 2, 3, 4, 5, 7, 9, 12, 16, 24, 40) if ctx.quick else
+                       (1, 2, 3, 4, 5, 7, 9, 12, 16, 24, 40, 40, 100, 250))
     cases += gen_perm_cases(rng, perm_sizes)
     cases += gen_tol_cases(rng, ntol)
     n = 0
